@@ -376,3 +376,53 @@ def check_realloc_copy(ck, P, rid):
                 ck.violated(rid, inst, m.where, "a block of order %d (%d bytes) is reported as %d bytes: rs_realloc copies past its end" % (v, 1 << v, got), cfg)
                 return
     ck.holds(rid, inst, stores[0].where, "reports at most 1 << order of the block, the order being found by the climb from the block's leaf", cfg)
+
+
+def check_arena_insert(ck, P, rid):
+    """rs_malloc keeps the arena table sorted by address (buddy_find_by_address is a binary search): the index at which a new arena is
+    inserted equals the number of arenas with a lower address.  The code between the creation of the arena and the insertion is
+    interpreted for tables of 0..5 arenas and every rank of the new address."""
+    from . import interp
+    from .rules_part import _mcall_args
+    cfg = P.config
+    f = P.fn("rs_malloc")
+    inst = "sorted-insert@rs_malloc"
+    adds = [n for n in f.walk() if n.k == "StmtExpr" and n.macros and n.macros[-1] == "array_add_at" and "buddies" in (n.d.get("mcall") or "")]
+    inits = [c for c in f.calls() if c.callee == "buddy_init"]
+    if not adds or len(inits) != 1:
+        ck.inconclusive(rid, inst, f.where, "creation of a new arena / its insertion with array_add_at were not recognised", cfg)
+        return
+    add = adds[0]
+    args = _mcall_args(add) or []
+    if len(args) != 3 or not args[1].isidentifier() or not args[2].isidentifier():
+        ck.inconclusive(rid, inst, add.where, "insertion index / value are not plain variables: %s" % (add.d.get("mcall") or "")[:60], cfg)
+        return
+    cont, idx, val = args[0].replace(" ", ""), args[1], args[2]
+    pos = f.cfg.position(inits[0])
+    if pos is None:
+        ck.inconclusive(rid, inst, f.where, "position of buddy_init not found", cfg)
+        return
+    B = f.cfg.blocks[pos[0]]
+    if pos[1] + 1 >= len(B.elems):
+        ck.inconclusive(rid, inst, f.where, "nothing follows buddy_init in its block", cfg)
+        return
+    start = B.elems[pos[1] + 1]
+    stop = {x.id for x in add.walk()}
+    bad = None
+    for n in range(0, 6):
+        for r in range(n + 1):
+            env = {"%s.count" % cont: n, val: 100 * r + 50}
+            for k in range(n):
+                env["%s.items[%d]" % (cont, k)] = 100 * (k + 1)
+            outs = interp.Interp(f, max_visits=16).run(env, start=start, stop=stop)
+            outs = [o for o in outs if o.how == "stop"] if outs and all(o.decided for o in outs) else None
+            if not outs:
+                ck.inconclusive(rid, inst, add.where, "the search for the insertion index could not be evaluated (it reads something besides the table and the new address)", cfg)
+                return
+            for o in outs:
+                if o.env.get(idx) != r and bad is None:
+                    bad = (n, r, o.env.get(idx))
+    if bad:
+        ck.violated(rid, inst, add.where, "with %d arena(s), a new arena whose address is number %d in ascending order is inserted at index %s: the table is no longer sorted and the binary search of rs_free / rs_realloc misses pointers or picks the wrong arena" % bad, cfg)
+    else:
+        ck.holds(rid, inst, add.where, "for 0..5 arenas and every rank of the new address the insertion index equals the number of lower addresses", cfg)
